@@ -1,6 +1,10 @@
 //! Operations of the line protocol, executed against the real crate.
 
+use response_time_analysis::arrival::{self, ArrivalBound};
+use response_time_analysis::demand::{self, AggregateRequestBound, RequestBound};
 use response_time_analysis::fixed_point::{self, SearchFailure, SearchResult};
+use response_time_analysis::supply::SupplyBound;
+use response_time_analysis::wcet::JobCostModel;
 use response_time_analysis::time::{Duration, Offset, Service};
 
 use crate::terms::*;
@@ -83,6 +87,186 @@ pub fn eval(toks: &[&str]) -> Option<String> {
             let r = fixed_point::search(&s, Duration::from(lim), |x| tab_eval(&tab, x));
             Some(res_str(&r))
         }
+        "na" => {
+            let a = parse_arr(&mut t)?;
+            let d = t.u64()?;
+            Some(a.number_arrivals(Duration::from(d)).to_string())
+        }
+        "nas" => {
+            let a = parse_arr(&mut t)?;
+            let lo = t.u64()?;
+            let hi = t.u64()?;
+            let v: Vec<u64> = (lo..=hi)
+                .map(|d| a.number_arrivals(Duration::from(d)) as u64)
+                .collect();
+            Some(list_str(&v))
+        }
+        "steps" => {
+            let a = parse_arr(&mut t)?;
+            let h = t.u64()?;
+            let v: Vec<u64> = a
+                .steps_iter()
+                .take_while(|x| *x <= Duration::from(h))
+                .map(u64::from)
+                .collect();
+            Some(list_str(&v))
+        }
+        "bsteps" => {
+            let a = parse_arr(&mut t)?;
+            let h = t.u64()?;
+            let v: Vec<u64> = a
+                .brute_force_steps_iter()
+                .take_while(|x| *x <= Duration::from(h))
+                .map(u64::from)
+                .collect();
+            Some(list_str(&v))
+        }
+        "dmin" => {
+            let c = parse_curve(&mut t)?;
+            Some(list_str(&curve_dmin(&c)))
+        }
+        "mind" => {
+            let n = t.usize()?;
+            let c = parse_curve(&mut t)?;
+            Some(u64::from(c.min_distance(n)).to_string())
+        }
+        "pfx" => {
+            let p = parse_prefix(&mut t)?;
+            Some(prefix_repr(&p))
+        }
+        "dmi" => {
+            let k = t.usize()?;
+            let a = parse_arr(&mut t)?;
+            let v: Vec<String> = arrival::delta_min_iter(&a)
+                .take(k)
+                .map(|(n, d)| format!("{}:{}", n, u64::from(d)))
+                .collect();
+            Some(format!("[{}]", v.join(",")))
+        }
+        "coj" => {
+            let c = parse_cost(&mut t)?;
+            let n = t.usize()?;
+            Some(u64::from(c.cost_of_jobs(n)).to_string())
+        }
+        "cojs" => {
+            let c = parse_cost(&mut t)?;
+            let lo = t.usize()?;
+            let hi = t.usize()?;
+            let v: Vec<u64> = (lo..=hi).map(|n| u64::from(c.cost_of_jobs(n))).collect();
+            Some(list_str(&v))
+        }
+        "items" => {
+            let c = parse_cost(&mut t)?;
+            let n = t.usize()?;
+            let v: Vec<u64> = c.job_cost_iter().take(n).map(u64::from).collect();
+            Some(list_str(&v))
+        }
+        "least" => {
+            let c = parse_cost(&mut t)?;
+            let n = t.usize()?;
+            Some(u64::from(c.least_wcet(n)).to_string())
+        }
+        "ccvec" => {
+            let c = parse_cost_curve(&mut t)?;
+            Some(list_str(&cost_curve_vec(&c)))
+        }
+        "need" => {
+            let r = parse_rb(&mut t)?;
+            let d = t.u64()?;
+            Some(u64::from(r.service_needed(Duration::from(d))).to_string())
+        }
+        "needs" => {
+            let r = parse_rb(&mut t)?;
+            let lo = t.u64()?;
+            let hi = t.u64()?;
+            let v: Vec<u64> = (lo..=hi)
+                .map(|d| u64::from(r.service_needed(Duration::from(d))))
+                .collect();
+            Some(list_str(&v))
+        }
+        "lw" => {
+            let r = parse_rb(&mut t)?;
+            let d = t.u64()?;
+            Some(u64::from(r.least_wcet_in_interval(Duration::from(d))).to_string())
+        }
+        "rsteps" => {
+            let r = parse_rb(&mut t)?;
+            let h = t.u64()?;
+            let v: Vec<u64> = r
+                .steps_iter()
+                .take_while(|x| *x <= Duration::from(h))
+                .map(u64::from)
+                .collect();
+            Some(list_str(&v))
+        }
+        "jc" => {
+            let r = parse_rb(&mut t)?;
+            let d = t.u64()?;
+            let mut v: Vec<u64> = r.job_cost_iter(Duration::from(d)).map(u64::from).collect();
+            v.sort_by(|a, b| b.cmp(a));
+            Some(list_str(&v))
+        }
+        "nbn" => {
+            let r = parse_rb(&mut t)?;
+            let d = t.u64()?;
+            let n = t.usize()?;
+            Some(u64::from(r.service_needed_by_n_jobs(Duration::from(d), n)).to_string())
+        }
+        "nbnc" => {
+            let r = parse_rb_any(&mut t)?;
+            let d = t.u64()?;
+            let n = t.usize()?;
+            match r {
+                Rb::Agg(a) => Some(
+                    u64::from(a.service_needed_by_n_jobs_per_component(Duration::from(d), n))
+                        .to_string(),
+                ),
+                Rb::Plain(p) => {
+                    Some(u64::from(p.service_needed_by_n_jobs(Duration::from(d), n)).to_string())
+                }
+            }
+        }
+        "soff" => {
+            let r = parse_rb(&mut t)?;
+            let l = t.u64()?;
+            let v: Vec<u64> = demand::step_offsets(&r)
+                .take_while(|a| *a < Offset::from(l))
+                .map(u64::from)
+                .collect();
+            Some(list_str(&v))
+        }
+        "xops" => {
+            // history of queries on clones of ONE ExtrapolatingCurve sharing the cache
+            let d = t.list_u64()?;
+            let m = t.usize()?;
+            let base = arrival::ExtrapolatingCurve::new(arrival::Curve::new(durs(&d)));
+            let clones: Vec<arrival::ExtrapolatingCurve> = (0..3).map(|_| base.clone()).collect();
+            let mut iters: Vec<Box<dyn Iterator<Item = Duration> + '_>> = vec![];
+            let mut outs: Vec<String> = vec![];
+            for k in 0..m {
+                let c = &clones[k % 3];
+                match t.next()? {
+                    "na" => {
+                        let delta = t.u64()?;
+                        outs.push(c.number_arrivals(Duration::from(delta)).to_string());
+                    }
+                    "it" => {
+                        iters.push(c.steps_iter());
+                        outs.push("-".to_string());
+                    }
+                    "nx" => {
+                        let i = t.usize()?;
+                        if i < iters.len() {
+                            outs.push(u64::from(iters[i].next()?).to_string());
+                        } else {
+                            outs.push("-".to_string());
+                        }
+                    }
+                    _ => return None,
+                }
+            }
+            Some(format!("[{}]", outs.join(",")))
+        }
         "maxrt" => {
             let n = t.usize()?;
             let mut v = vec![];
@@ -91,6 +275,6 @@ pub fn eval(toks: &[&str]) -> Option<String> {
             }
             Some(res_str(&fixed_point::max_response_time(v.into_iter())))
         }
-        _ => None,
+        other => crate::analyses::eval(other, &mut t),
     }
 }
